@@ -7,9 +7,15 @@ Correspondence (Corr/C06.v, Model/Errors.v), all numeric comparisons on SQUARED 
   * callback runs: every (decomposition, error) pair handed to a callback is checked the same way (all iterations of one run);
   * direct calls of error_calc with the implementation's own MTTKRP as data (KErrCalc) and with the model's MTTKRP (KCPfast,
     which also re-checks shortcut == residual exactly in Q on that instance);
+  * PARAFAC2: the model evaluates the slice-wise shortcut (both forms of B_i^T X_i) AND the residual from scratch from the returned
+    (weights, (A, B, C), projections) -- they must coincide exactly -- and compares with (reported)^2; direct calls of
+    _parafac2_reconstruction_error on random (non-orthonormal) decompositions with slices of different heights;
+  * HOOI: (reported)^2 against the model of the shortcut |norm^2 - norm(core)^2| (KHooi) and against the residual from scratch (KTucker);
+  * convergence-stopped runs (tol > 0): the last reported value against the returned decomposition (break paths);
   * skeleton traces: number of reports / callbacks / block updates / break for chosen decision sequences.
-Predicates (Python, float64, independent of Coq): finiteness, callback values == returned list, recomputed error."""
-import itertools, random, math
+Predicates (Python, float64, independent of Coq): finiteness, callback values == returned list, recomputed error, the list of the
+longest prefix run restricted to k entries equals the list of the k-run (every list entry belongs to the iterate of its iteration)."""
+import itertools, random, math, io, contextlib, json, os
 import numpy as np
 from harness import common as C
 
@@ -120,12 +126,24 @@ class Rec:
         self.errors = None     # list of floats (None if the entry point returns no list)
         self.cb = []           # list of (iterate dict, error or None)
         self.squared_unnormalised = False
+        self.ls = []           # line-search decisions (True = accepted) where they can be observed
 
 
 def _cp_it(cp, S=None, mask=None):
     w, fs = cp
     return dict(kind="cp", w=None if w is None else np.array(w, dtype=float), fs=[np.array(f, dtype=float) for f in fs],
                 S=None if S is None else np.array(S, dtype=float), mask=mask)
+
+
+def ls_decisions(text):
+    """line-search decisions as printed by verbose mode (the only outside view of them)"""
+    out = []
+    for ln in text.splitlines():
+        if ln.startswith("Accepted line search jump"):
+            out.append(True)
+        elif ln.startswith("Line search failed"):
+            out.append(False)
+    return out
 
 
 def run_parafac(X, rank, k, seed, opts):
@@ -151,8 +169,12 @@ def run_parafac(X, rank, k, seed, opts):
         count[0] += 1
         return stop_at is not None and j - 1 == stop_at   # call 0 is the one before the loop
 
-    out, errs = parafac(np.array(X), rank, n_iter_max=k, tol=0, return_errors=True, random_state=seed,
-                        callback=cb if want_cb else None, **o)
+    tol = o.pop("_tol", 0)
+    buf = io.StringIO()
+    with contextlib.redirect_stdout(buf):
+        out, errs = parafac(np.array(X), rank, n_iter_max=k, tol=tol, return_errors=True, random_state=seed,
+                            callback=cb if want_cb else None, verbose=1 if o.get("linesearch") else 0, **o)
+    rec.ls = ls_decisions(buf.getvalue())
     if o.get("sparsity"):
         rec.final = _cp_it(out[0], out[1], mask)
     else:
@@ -168,7 +190,7 @@ def run_nn_parafac(X, rank, k, seed, opts):
     init = o.pop("_init", None)
     if init is not None:
         o["init"] = rand_cp_init(X.shape, rank, np.random.RandomState(seed), nonneg=True)
-    out, errs = non_negative_parafac(np.array(X), rank, n_iter_max=k, tol=1e-300, return_errors=True, random_state=seed, **o)
+    out, errs = non_negative_parafac(np.array(X), rank, n_iter_max=k, tol=o.pop("_tol", 1e-300), return_errors=True, random_state=seed, **o)
     rec.final = _cp_it(out, None, o.get("mask"))
     rec.errors = [float(e) for e in errs]
     return rec
@@ -181,7 +203,7 @@ def run_hals(X, rank, k, seed, opts):
     init = o.pop("_init", None)
     if init is not None:
         o["init"] = rand_cp_init(X.shape, rank, np.random.RandomState(seed), nonneg=True)
-    out, errs = non_negative_parafac_hals(np.array(X), rank, n_iter_max=k, tol=1e-300, return_errors=True, random_state=seed, **o)
+    out, errs = non_negative_parafac_hals(np.array(X), rank, n_iter_max=k, tol=o.pop("_tol", 1e-300), return_errors=True, random_state=seed, **o)
     rec.final = _cp_it(out)
     rec.errors = [float(e) for e in errs]
     return rec
@@ -189,7 +211,8 @@ def run_hals(X, rank, k, seed, opts):
 
 def run_constrained(X, rank, k, seed, opts):
     from tensorly.decomposition import constrained_parafac
-    out, errs = constrained_parafac(np.array(X), rank, n_iter_max=k, tol_outer=0, return_errors=True, random_state=seed,
+    opts = dict(opts)
+    out, errs = constrained_parafac(np.array(X), rank, n_iter_max=k, tol_outer=opts.pop("_tol", 0), return_errors=True, random_state=seed,
                                     init="random", **opts)
     rec = Rec()
     rec.final = _cp_it(out)
@@ -197,16 +220,17 @@ def run_constrained(X, rank, k, seed, opts):
     return rec
 
 
-def _tk_it(core, fs):
-    return dict(kind="tucker", G=np.array(core, dtype=float), fs=[np.array(f, dtype=float) for f in fs])
+def _tk_it(core, fs, mask=None):
+    return dict(kind="tucker", G=np.array(core, dtype=float), fs=[np.array(f, dtype=float) for f in fs], mask=mask)
 
 
 def run_tucker(X, rank, k, seed, opts):
     from tensorly.decomposition import tucker
     rk = [min(rank, d) for d in X.shape]
-    out, errs = tucker(np.array(X), rk, n_iter_max=k, tol=0, return_errors=True, random_state=seed, **opts)
+    opts = dict(opts)
+    out, errs = tucker(np.array(X), rk, n_iter_max=k, tol=opts.pop("_tol", 0), return_errors=True, random_state=seed, **opts)
     rec = Rec()
-    rec.final = _tk_it(out[0], out[1])
+    rec.final = _tk_it(out[0], out[1], opts.get("mask"))
     rec.final["hooi"] = opts.get("mask") is None
     rec.errors = [float(e) for e in errs]
     return rec
@@ -217,13 +241,13 @@ def run_partial_tucker(X, rank, k, seed, opts):
     modes = opts["modes"]
     rk = [min(rank, X.shape[m]) for m in modes]
     (core, fs), errs = partial_tucker(np.array(X), rk, modes=modes, n_iter_max=k, tol=0, random_state=seed,
-                                      init=opts.get("init", "svd"))
+                                      init=opts.get("init", "svd"), mask=opts.get("mask"))
     full = [np.eye(d) for d in X.shape]
     for m, f in zip(modes, fs):
         full[m] = f
     rec = Rec()
-    rec.final = _tk_it(core, full)
-    rec.final["hooi"] = True
+    rec.final = _tk_it(core, full, opts.get("mask"))
+    rec.final["hooi"] = opts.get("mask") is None
     rec.errors = [float(e) for e in errs]
     return rec
 
@@ -231,7 +255,8 @@ def run_partial_tucker(X, rank, k, seed, opts):
 def run_nn_tucker(X, rank, k, seed, opts):
     from tensorly.decomposition import non_negative_tucker
     rk = [min(rank, d) for d in X.shape]
-    out, errs = non_negative_tucker(np.array(X), rk, n_iter_max=k, tol=0, return_errors=True, random_state=seed, **opts)
+    opts = dict(opts)
+    out, errs = non_negative_tucker(np.array(X), rk, n_iter_max=k, tol=opts.pop("_tol", 0), return_errors=True, random_state=seed, **opts)
     rec = Rec()
     rec.final = _tk_it(out[0], out[1])
     rec.errors = [float(e) for e in errs]
@@ -241,7 +266,8 @@ def run_nn_tucker(X, rank, k, seed, opts):
 def run_nn_tucker_hals(X, rank, k, seed, opts):
     from tensorly.decomposition import non_negative_tucker_hals
     rk = [min(rank, d) for d in X.shape]
-    out, errs = non_negative_tucker_hals(np.array(X), rk, n_iter_max=k, tol=0, return_errors=True, random_state=seed, **opts)
+    opts = dict(opts)
+    out, errs = non_negative_tucker_hals(np.array(X), rk, n_iter_max=k, tol=opts.pop("_tol", 0), return_errors=True, random_state=seed, **opts)
     rec = Rec()
     rec.final = _tk_it(out[0], out[1])
     rec.errors = [float(e) for e in errs]
@@ -251,10 +277,16 @@ def run_nn_tucker_hals(X, rank, k, seed, opts):
 def run_parafac2(X, rank, k, seed, opts):
     import tensorly as tl
     from tensorly.decomposition import parafac2
-    out, errs = parafac2(np.array(X), rank, n_iter_max=k, tol=1e-300, return_errors=True, random_state=seed,
-                         init="random", n_iter_parafac=3, **opts)
+    opts = dict(opts)
+    buf = io.StringIO()
+    with contextlib.redirect_stdout(buf):
+        out, errs = parafac2(np.array(X), rank, n_iter_max=k, tol=opts.pop("_tol", 1e-300), return_errors=True, random_state=seed,
+                             init="random", n_iter_parafac=3, verbose=True, **opts)
     rec = Rec()
-    rec.final = dict(kind="dense", L=np.array(tl.parafac2_tensor.parafac2_to_tensor(out), dtype=float))
+    rec.ls = ls_decisions(buf.getvalue())
+    w, (A, B, Cm), Ps = out
+    rec.final = dict(kind="parafac2", w=None if w is None else np.array(w, dtype=float), A=np.array(A, dtype=float), B=np.array(B, dtype=float),
+                     C=np.array(Cm, dtype=float), Ps=[np.array(P, dtype=float) for P in Ps], slices=[np.array(X[i], dtype=float) for i in range(X.shape[0])])
     rec.errors = [float(e) for e in errs]
     return rec
 
@@ -284,7 +316,7 @@ def run_randomised(X, rank, k, seed, opts):
     def cb(dec, err=None):
         rec.cb.append((_cp_it(dec), None if err is None else float(err)))
 
-    out, errs = randomised_parafac(np.array(X), rank, n_samples=opts.get("n_samples", 40), n_iter_max=k, tol=0,
+    out, errs = randomised_parafac(np.array(X), rank, n_samples=opts.get("n_samples", 40), n_iter_max=k, tol=opts.get("_tol", 0),
                                    max_stagnation=1000, return_errors=True, random_state=seed,
                                    callback=cb if opts.get("_cb") else None, init=opts.get("init", "random"))
     rec.final = _cp_it(out)
@@ -298,7 +330,7 @@ def run_cmtf(X, rank, k, seed, opts):
     Y = opts["_Y"]
     np.random.seed(seed % (2 ** 31))
     tcp, mcp, errs = coupled_matrix_tensor_3d_factorization(np.array(X), np.array(Y), rank, init=opts.get("init", "svd"),
-                                                            n_iter_max=k, tol=0, normalize_factors=opts.get("normalize_factors", False))
+                                                            n_iter_max=k, tol=opts.get("_tol", 0), normalize_factors=opts.get("normalize_factors", False))
     rec = Rec()
     rec.final = dict(kind="cmtf", cpX=_cp_it(tcp), cpY=_cp_it(mcp), Y=np.array(Y, dtype=float))
     rec.errors = [float(e) for e in errs]
